@@ -118,7 +118,7 @@ BOND_TEXT = {1: "", 2: "=", 3: "#", 1.5: ""}
 
 
 def spell(mol, rng, label_mode=None, explicit_single=0.05, variants=True,
-          ring_sym_side=None, mix_labels=False, roots=None, vrng=None, digits_after_branch=0.0):
+          ring_sym_side=None, mix_labels=False, roots=None, vrng=None, digits_after_branch=0.0, spanning="dfs"):
     """Return (smiles, order, tags, marks): order[k] = gmol index of the k-th
     written atom; tags {gidx: '@'|'@@'}; marks {(gsrc,gdst): char written at
     src's side}."""
@@ -182,6 +182,43 @@ def spell(mol, rng, label_mode=None, explicit_single=0.05, variants=True,
         tree_order = [root]
         stack = [(root, iter(rng.sample(adj[root], len(adj[root]))))]
         visited.add(root)
+        if spanning == "random":
+            # any spanning tree, not only a depth-first one: a ring bond may then join two atoms none of which is an
+            # ancestor of the other, and an atom may open a ring although nothing follows it in its own chain
+            stack = []
+            frontier = [root]
+            comp_set = set(comp)
+            while frontier:
+                v = frontier.pop(rng.randrange(len(frontier)))
+                nb = [w for w in adj[v] if w not in visited]
+                rng.shuffle(nb)
+                for w in nb:
+                    if rng.random() < 0.7 or not frontier:
+                        visited.add(w)
+                        parent[w] = v
+                        children[v].append(w)
+                        children[w] = []
+                        frontier.append(w)
+                if any(w not in visited for w in adj[v]):
+                    frontier.append(v)
+            # written (pre-order) sequence and the non-tree edges
+            tree_order = []
+            st2 = [root]
+            while st2:
+                v = st2.pop()
+                tree_order.append(v)
+                for w in reversed(children[v]):
+                    st2.append(w)
+            seen_at = {v: k for k, v in enumerate(tree_order)}
+            for v in tree_order:
+                for w in adj[v]:
+                    if parent.get(w) == v or parent.get(v) == w:
+                        continue
+                    key = (min(v, w), max(v, w))
+                    if key not in ring_keys:
+                        ring_keys.add(key)
+                        a, b = (v, w) if seen_at[v] < seen_at[w] else (w, v)
+                        ring_bonds.append((a, b))
         while stack:
             v, it = stack[-1]
             advanced = False
@@ -365,7 +402,8 @@ def random_tree_mol(rng, n, elements=None, p_ring=0.15, p_double=0.2, p_triple=0
     adj = m.adj()
     for i, a in enumerate(m.atoms):
         nn = len(adj[i]) + (1 if (a.hcount or 0) == 1 else 0)
-        if nn in (3, 4) and (a.hcount or 0) <= 1 and rng.random() < p_chiral and a.element in chiral_elements:
+        wide = a.element in ("P", "S", "Si", "As", "Se") and nn in (5, 6)     # @/@@ on a hypervalent centre: accepted input
+        if (nn in (3, 4) or wide) and (a.hcount or 0) <= 1 and rng.random() < p_chiral and a.element in chiral_elements + ("As", "Se"):
             a.chiral = True
             if a.hcount is None:
                 # a chiral atom is a bracket atom: make its H count explicit
